@@ -107,6 +107,56 @@ def explore(job: dict) -> dict:
     return col.dump()
 
 
+def judge_file(hist: dict, res: dict) -> list[tuple[dict, str]]:
+    """File-sourced gateways: the views of the gateway that replayed a log, and of a fresh one started with its snapshot (which has read
+    no packet of its own), answer; snapshot / restore there leave the engine as it was."""
+    out: list[tuple[dict, str]] = []
+    seen = set()
+    for who in ("a", "b"):
+        for f in res.get(f"{who}_view_failures", []):
+            key = (f["view"].split(":")[0], f["exc"], f["site"])
+            if key not in seen:
+                seen.add(key)
+                out.append(({"clause": "view-raises", "level": "file-source" if who == "a" else "file-restored", "view": f["view"], "exc": f["exc"], "site": f["site"]},
+                            f"{f['view']} -> {f['exc']}: {f['text']}"))
+    for k, lvl in (("a_snapshot_raised", "file-source"), ("b_start_raised", "file-restored-start"), ("b_snapshot_raised", "file-restored")):
+        if k in res:
+            r = res[k]
+            out.append(({"clause": "view-raises", "level": lvl, "view": "gwy.get_state" if "snapshot" in k else "gwy.start(cached_packets)", "exc": r["exc"], "site": r["site"]}, f"{r}"))
+    be = res.get("b_engine")
+    if be and be[0] != be[1]:
+        out.append(({"clause": "engine-state-changed", "op": "restore", "level": "file-restored"}, f"{be[0]} -> {be[1]}"))
+    return out
+
+
+def explore_file(job: dict) -> dict:
+    from hypothesis import strategies as st
+
+    from vf.env import gwrig
+    from vf.env.quiet import quiet_logs
+    from vf.gen.histories import history
+
+    quiet_logs()
+    col = Collector()
+
+    @st.composite
+    def case(draw: Any) -> dict:
+        h = draw(history(max_len=80))
+        return {"level": "file", "frames": h["frames"], "system": h["system"], "mutations": h["mutations"],
+                "gaps": draw(st.lists(st.sampled_from((0.01, 0.05, 1.0, 30.0, 400.0, 4000.0, 90000.0)), min_size=1, max_size=6)),
+                "last_gap": draw(st.sampled_from((0.05, 400.0, 4000.0))), "eavesdrop": draw(st.booleans()), "include_expired": draw(st.booleans()), "rnd": draw(st.integers(0, 1000))}
+
+    def body(hist: dict) -> None:
+        res = gwrig.run_file(hist)
+        col.case(nt=jdump(hist["frames"]) if hist["mutations"] else None, classes=["file-hist", "file-mutated" if hist["mutations"] else "file-pristine-slice"],
+                 sample={"level": "file", "system": hist["system"], "n": len(hist["frames"]), "mutations": hist["mutations"], "n_pkts": len(res.get("pkts_a") or {})})
+        for sig, detail in judge_file(hist, res):
+            col.violation(sig, hist, detail)
+
+    hyp_explore(case(), body, job["n"], job["seed"])
+    return col.dump()
+
+
 def run(ctx: Ctx, col: Collector) -> None:
     ctx.rule = RULE
     ctx.assumptions = [
@@ -115,6 +165,8 @@ def run(ctx: Ctx, col: Collector) -> None:
         "restore = the gateway's own snapshot restored into itself (fresh-gateway restore is C16)",
     ]
     ctx.parallel(explore, ctx.shards(ctx.n(640, 20_000), per_shard_min=10), col)
+    # file-sourced gateways (packet log as input; clock = newest packet read), and a fresh one started with the snapshot at 'point 0'
+    ctx.parallel(explore_file, ctx.shards(ctx.n(320, 10_000), per_shard_min=10), col)
     ctx.floors = [("mutated", "hist", 0.5), ("has-restore", "hist", 0.2)]
 
 
@@ -123,4 +175,6 @@ def replay(case: dict) -> list[tuple[dict, str]]:
     from vf.env.quiet import quiet_logs
 
     quiet_logs()
+    if case.get("level") == "file":
+        return judge_file(case, gwrig.run_file(case))
     return judge(case, gwrig.run(case))
